@@ -161,6 +161,16 @@ var badKinds = []badKind{
 	{"time-without-time_type+jsontag-hidden", func(n string, num int32) spec.Field {
 		return spec.Field{Name: n, Num: num, Kind: spec.KTime, Nullable: false, JSON: "hidden,omitempty"}
 	}},
+	// the time / duration field is itself embedded (gogoproto.embed on a Timestamp / Duration field)
+	{"embedded-raw-timestamp-without-time_type", func(n string, num int32) spec.Field {
+		return spec.Field{Name: n, Num: num, Kind: spec.KTime, Nullable: true, Raw: true, Embed: true}
+	}},
+	{"embedded-stdtime-without-time_type", func(n string, num int32) spec.Field {
+		return spec.Field{Name: n, Num: num, Kind: spec.KTime, Nullable: false, Embed: true}
+	}},
+	{"embedded-raw-duration-without-duration_type", func(n string, num int32) spec.Field {
+		return spec.Field{Name: n, Num: num, Kind: spec.KDuration, Nullable: true, Raw: true, Embed: true}
+	}},
 	{"map-int32-key", func(n string, num int32) spec.Field {
 		return spec.Field{Name: n, Num: num, Kind: spec.KString, Card: spec.CardMap, MapKey: spec.KInt32}
 	}},
@@ -335,7 +345,12 @@ func C18RealCases(seed uint64, tier string) ([]*Case, map[string]int) {
 	}
 	for _, sortOn := range []bool{false, true} {
 		for _, pos := range badPositions {
-			for _, k := range badKinds {
+			for ki, k := range badKinds {
+				// quick tier: with sort on, every third kind (rotating with the position) — the thorough tier
+				// runs the full product
+				if tier != "thorough" && sortOn && (ki+len(pos.name))%3 != 0 {
+					continue
+				}
 				if pos.oneof != "" && (k.field("x", 1).Card != "") {
 					continue // repeated/map fields cannot be oneof members
 				}
@@ -359,7 +374,7 @@ func C18RealCases(seed uint64, tier string) ([]*Case, map[string]int) {
 				if pos.oneof == "" && (pos.name == "direct-last" || pos.name == "nested+list-element" || pos.name == "map-value" || pos.name == "depth-2" || tier == "thorough") {
 					typeKey := pos.msg[strings.LastIndex(pos.msg, ".")+1:] + "." + fname
 					keys := []string{typeKey}
-					if pos.pathKeys != nil {
+					if pos.pathKeys != nil && !k.field("x", 1).Embed {
 						keys = append(keys, pos.pathKeys(fname)...)
 					}
 					for _, dk := range decoyOptions {
@@ -384,7 +399,7 @@ func C18RealCases(seed uint64, tier string) ([]*Case, map[string]int) {
 					px := cloneProgram(pe)
 					tk := pos.msg[strings.LastIndex(pos.msg, ".")+1:] + "." + fname
 					allKeys := []string{tk}
-					if pos.pathKeys != nil {
+					if pos.pathKeys != nil && !k.field("x", 1).Embed {
 						allKeys = append(allKeys, pos.pathKeys(fname)...)
 					}
 					for _, dk := range decoyOptions {
@@ -398,8 +413,9 @@ func C18RealCases(seed uint64, tier string) ([]*Case, map[string]int) {
 				cases = append(cases, &Case{Property: "C18", Clause: "excluded/type-key/" + k.name + "@" + pos.name, Seed: seed, Tier: tier, Program: pe,
 					Ref: refRun(b), Run: runFrom(pe.Config.Render(nil, nil)), Expect: Expect{Kind: "atomic", Roots: p.Config.Types, Restored: restoredRoots}})
 
-				// exclusion by full path restores exactly the occurrences named
-				if pos.pathKeys != nil {
+				// exclusion by full path restores exactly the occurrences named (an embedded field is keyed by
+				// the name of the embedding message only — README — so it has no path form)
+				if pos.pathKeys != nil && !k.field("x", 1).Embed {
 					keys := pos.pathKeys(fname)
 					pa := cloneProgram(p)
 					pa.Config.ExcludeFields = append(pa.Config.ExcludeFields, keys...)
